@@ -752,8 +752,45 @@ func v2try(f func() (*psetv2.Pset, error)) (p *psetv2.Pset, st string) {
 	}
 	return nil, "err"
 }
+// v2parse goes through NewPsetFromBuffer with a buffer the CALLER owns (spare capacity behind it), and
+// the caller then overwrites every byte of that buffer: a packet that still shares memory with its
+// input shows the scribble in its dump and in its re-serialization.
 func v2parse(bs []byte) (*psetv2.Pset, string) {
-	return v2try(func() (*psetv2.Pset, error) { return psetv2.NewPsetFromBuffer(bytes.NewBuffer(v2cp(bs))) })
+	own := make([]byte, len(bs), len(bs)+64)
+	copy(own, bs)
+	p, st := v2try(func() (*psetv2.Pset, error) { return psetv2.NewPsetFromBuffer(bytes.NewBuffer(own)) })
+	own = own[:cap(own)]
+	for i := range own {
+		own[i] = 0xa5
+	}
+	return p, st
+}
+
+// v2appendAll appends to every byte-slice field a parser fills (as a caller extending a script would):
+// with exact-capacity copies this cannot reach any other field
+func v2appendAll(p *psetv2.Pset) {
+	junk := bytes.Repeat([]byte{0xee}, 48)
+	for i := range p.Inputs {
+		in := &p.Inputs[i]
+		for _, f := range []*[]byte{&in.RedeemScript, &in.WitnessScript, &in.FinalScriptSig, &in.FinalScriptWitness, &in.PreviousTxid,
+			&in.IssuanceValueCommitment, &in.IssuanceValueRangeproof, &in.PeginTxoutProof, &in.PeginClaimScript, &in.UtxoRangeProof,
+			&in.ValueProof, &in.ExplicitAsset, &in.AssetProof, &in.TapKeySig, &in.TapInternalKey, &in.TapMerkleRoot} {
+			_ = append(*f, junk...)
+		}
+		for _, u := range in.Unknowns {
+			_ = append(u.Value, junk...)
+		}
+	}
+	for i := range p.Outputs {
+		o := &p.Outputs[i]
+		for _, f := range []*[]byte{&o.RedeemScript, &o.WitnessScript, &o.Script, &o.ValueCommitment, &o.Asset, &o.AssetCommitment,
+			&o.ValueRangeproof, &o.AssetSurjectionProof, &o.BlindingPubkey, &o.EcdhPubkey, &o.BlindValueProof, &o.BlindAssetProof} {
+			_ = append(*f, junk...)
+		}
+	}
+	for _, u := range p.Global.Unknowns {
+		_ = append(u.Value, junk...)
+	}
 }
 func v2parse64(s string) (*psetv2.Pset, string) {
 	return v2try(func() (*psetv2.Pset, error) { return psetv2.NewPsetFromBase64(s) })
@@ -816,6 +853,13 @@ func runV2Pset(t *Toks) string {
 	q, st := v2parse64(b64)
 	if st == "ok" {
 		st = dumpPsetV2(q)
+		// the same bytes through NewPsetFromBuffer, the caller's buffer overwritten afterwards, then
+		// every slice field appended to: the packet must not notice
+		if q2, st2 := v2parse(ser); st2 != "ok" {
+			st = "buffer-path:" + st2
+		} else if v2appendAll(q2); dumpPsetV2(q2) != st {
+			st = "buffer-path-differs:" + dumpPsetV2(q2)
+		}
 	}
 	return fmt.Sprintf("ser=%s wf=%s parse=%s", hx(ser), wf, st)
 }
@@ -1160,7 +1204,7 @@ func v2genInField(r *Rng, s *v2sec, pos int) {
 	case 10, 12:
 		s.lists[pos] = v2genMap(r, 32)
 	case 14:
-		v[14] = v2opt(uint64(r.Pick(0, 1, 2, 0xffffffff)), 4)
+		v[14] = v2opt(uint64(r.Pick(0, 1, 2, 0x3fffffff, 0x40000000, 0x80000001, 0xc0000000, 0xfffffffe, 0xffffffff, int(uint32(r.U64())))), 4)
 	case 15:
 		v[15] = v2le(uint64(r.Pick(1, 0xfffffffe, 0xffffffff)), 4)
 	case 16:
@@ -1403,7 +1447,7 @@ func v2genAPI(r *Rng) (p *psetv2.Pset) {
 		nin := r.Intn(4)
 		mode := r.Intn(4) // 0: no lock, 1: height, 2: time, 3: independent
 		for i := 0; i < nin; i++ {
-			a := psetv2.InputArgs{Txid: hex.EncodeToString(r.Bytes(32)), TxIndex: uint32(r.Intn(4)),
+			a := psetv2.InputArgs{Txid: hex.EncodeToString(r.Bytes(32)), TxIndex: uint32(r.Pick(r.Intn(4), r.Intn(4), 0x40000000, 0x80000001, 0xfffffffe, 0xffffffff)),
 				Sequence: uint32(r.Pick(0, 0, 1, 0xfffffffe, 0xffffffff))}
 			if mode == 1 || (mode == 3 && r.Bool()) {
 				a.HeightLock = uint32(1 + r.Intn(499999999))
@@ -1573,6 +1617,17 @@ func v2mutate(r *Rng, ser []byte) []byte {
 	var q v2pair
 	if len(ps) > 0 {
 		q = ps[r.Intn(len(ps))]
+	}
+	if r.Chance(8) { // an outpoint index with its top bits set (they are flags in a transaction, plain index bits here)
+		for _, c := range ps {
+			if c.sec >= 1 && len(c.key) == 1 && c.key[0] == 0x0f && len(c.val) == 4 {
+				m[c.end-1] |= byte(r.Pick(0x40, 0x80, 0xc0, 0xff))
+				if r.Bool() {
+					break
+				}
+			}
+		}
+		return m
 	}
 	switch kind {
 	case 0: // unchanged
